@@ -351,6 +351,8 @@ class ModelEval(Evaluator):
                 return Marker("excinst", func.data[0], args)
             if k == "ext":
                 h = self.hooks.get("ext", {}).get(func.data[0])
+                if h is None and func.data[0] in ("copy.copy", "copy.deepcopy") and len(args) >= 1:
+                    return self.py_copy(args[0], deep=func.data[0] == "copy.deepcopy", node=node)
                 if h is None:
                     d = self.hooks.get("ext_default")
                     if d is not None:
@@ -458,6 +460,38 @@ class ModelEval(Evaluator):
             return f(*args, **kwargs)
         except (TypeError, ValueError) as e:
             raise Raised(type(e).__name__, node, str(e))
+
+    def py_copy(self, v, deep, node=None, memo=None):
+        """copy.copy / copy.deepcopy on interpreted objects and containers (model tokens are immutable values)"""
+        memo = {} if memo is None else memo
+        if id(v) in memo:
+            return memo[id(v)]
+        if isinstance(v, PyObj):
+            m = self.tree.method(v._cls, "__deepcopy__" if deep else "__copy__")
+            if m is not None:
+                return self.invoke(m, [v] + ([{}] if deep else []), {}, node)
+            out = PyObj(v._cls)
+            memo[id(v)] = out
+            out._attrs.update({k: (self.py_copy(x, True, node, memo) if deep else x) for k, x in v._attrs.items()})
+            return out
+        if isinstance(v, dict):
+            out = {}
+            memo[id(v)] = out
+            out.update({k: (self.py_copy(x, True, node, memo) if deep else x) for k, x in v.items()})
+            return out
+        if isinstance(v, list):
+            out = []
+            memo[id(v)] = out
+            out.extend((self.py_copy(x, True, node, memo) if deep else x) for x in v)
+            return out
+        if isinstance(v, tuple):
+            return tuple((self.py_copy(x, True, node, memo) if deep else x) for x in v)
+        if isinstance(v, Model) and hasattr(v, "copy") and deep:
+            try:
+                return v.copy()
+            except TypeError:
+                return v
+        return v
 
     def isinstance_(self, obj, cls):
         if isinstance(cls, tuple):
